@@ -18,6 +18,10 @@ import Gribi.Gen.FlReplaceEntry
 import Gribi.Gen.FlUpdateElectionID
 import Gribi.Gen.FlEnqueue
 import Gribi.Gen.FlInjectRequest
+import Gribi.Gen.FlCWithPersistence
+import Gribi.Gen.FlCWithFIBACK
+import Gribi.Gen.FlCWithRedundancyMode
+import Gribi.Gen.FlCWithInitialElectionID
 import Gribi.Props.GenEquiv.Fluent
 namespace Gribi.GenEquiv
 open Gribi Gribi.Gen
@@ -218,6 +222,45 @@ theorem flRun_prefix (conn : Option GRIBIConnection) (opErr : Status) (cs : List
       cases c <;> exact ⟨_, rfl⟩
     obtain ⟨a, ha⟩ := this
     exact ⟨a ++ m, by rw [hm, ha, List.append_assoc]⟩
+
+/-! ### the connection builder: what the client will negotiate, and its first election id -/
+
+/-- each of the four setters changes what it names and nothing else; `WithInitialElectionID` sets
+the connection's initial id **and** the client's current id to exactly the two words given -/
+theorem gen_conn_setters (p f : Bool) (m : Int) (e c : Option U128) (m' : Int) (lo hi : UInt64) :
+    Gen.flCWithPersistence p f m e c = (true, f, m, e, c) ∧
+    Gen.flCWithFIBACK p f m e c = (p, true, m, e, c) ∧
+    Gen.flCWithRedundancyMode m' p f m e c = (p, f, m', e, c) ∧
+    Gen.flCWithInitialElectionID lo hi p f m e c = (p, f, m, some { lo := lo, hi := hi }, some { lo := lo, hi := hi }) :=
+  ⟨rfl, rfl, rfl, rfl⟩
+
+/-- from the connection builder to the wire: the operations of the first `AddEntry` after
+`WithInitialElectionID(lo, hi)` on an elected-primary client are stamped with (lo, hi) -/
+theorem gen_conn_initial_stamp (p f : Bool) (m : Int) (e c : Option U128) (lo hi : UInt64) (opErr : Status)
+    (es : List AFTOperation) (n : Nat) (h : ∀ x ∈ es, x.Id = 0) (hn : ∀ x ∈ es, x.ElectionId = none) :
+    let cur := (Gen.flCWithInitialElectionID lo hi p f m e c).2.2.2.2
+    (Gen.flAddEntry (es.map some) (some ()) (some { redundMode := 2 }) cur opErr n).2.2 =
+      [Eff.flQ (some { Operation := modifySpec AFTOperation_ADD (some { redundMode := 2 }) (some { lo := lo, hi := hi }) n es })] ∧
+    ∀ o ∈ modifySpec AFTOperation_ADD (some { redundMode := 2 }) (some { lo := lo, hi := hi }) n es,
+      o.ElectionId = some { lo := lo, hi := hi } := by
+  refine ⟨?_, ?_⟩
+  · simp only [(gen_conn_setters p f m e c 0 lo hi).2.2.2]
+    rw [gen_flAddEntry _ _ opErr es n h]
+  · intro o ho
+    have hf := modifySpec_fields AFTOperation_ADD (some { redundMode := 2 }) (some ({ lo := lo, hi := hi } : U128)) es n
+    have : (o.Op, o.ElectionId, o.Body) ∈ (modifySpec AFTOperation_ADD (some { redundMode := 2 }) (some { lo := lo, hi := hi }) n es).map
+        (fun o => (o.Op, o.ElectionId, o.Body)) := List.mem_map.mpr ⟨o, ho, rfl⟩
+    rw [hf] at this
+    obtain ⟨x, hx, hxe⟩ := List.mem_map.mp this
+    have h2 : stampSpec (some { redundMode := 2 }) (some { lo := lo, hi := hi }) x = o.ElectionId := by
+      have := congrArg (fun t => t.2.1) hxe
+      exact this
+    rw [← h2]
+    simp [stampSpec, hn x hx, elected]
+
+theorem gen_conn_translated :
+    Gen.flCWithPersistence_problem = none ∧ Gen.flCWithFIBACK_problem = none ∧ Gen.flCWithRedundancyMode_problem = none ∧
+    Gen.flCWithInitialElectionID_problem = none := ⟨rfl, rfl, rfl, rfl⟩
 
 /-! ### the hypotheses are satisfiable (tests, not theorems): a concrete run -/
 
